@@ -114,6 +114,9 @@ def h_bool(ctx):
     ctx.check("Bool is written as Y or N", ctx.any([t == "Y", t == "N"]))
 
 
+CASE_ODD = [(0x41, 0x5A), (0x61, 0x7A), (0xDF, 0xDF), (0x130, 0x131), (0x17F, 0x17F), (0x1E9E, 0x1E9E), (0x212A, 0x212A), (0xFB00, 0xFB06)]
+
+
 def h_oneof(ctx):
     toks = ("CHECKING", "SAVINGS", "MONEYMRKT", "CREDITLINE", "CD")
     conv = Types.OneOf(*toks)
@@ -128,6 +131,18 @@ def h_oneof(ctx):
     except REFUSE:
         t2 = None
     ctx.check("a foreign token is never written", t2 is None)
+    # a declared token with one letter replaced by another letter of either case or by one of the characters whose case
+    # mapping lands in ASCII (Kelvin sign, long s, dotless / dotted i, sharp s, ligatures): whatever is written is a declared token
+    k = ctx.choice("tok", list(range(len(toks))))
+    pos = ctx.choice("pos", list(range(len(toks[k]))))
+    c = ctx.str("c", 1, CASE_ODD)
+    y = toks[k][:pos] + c + toks[k][pos + 1:]
+    try:
+        held = conv.convert(y)
+        t3 = written(conv, held)
+    except REFUSE:
+        t3 = None
+    ctx.check("what is written for a near-token is nothing or a declared token", ctx.any([t3 is None] + [t3 == k2 for k2 in toks]))
 
 
 def h_string(ctx, cls, length, n):
